@@ -88,7 +88,7 @@ FAMILY_ACTIONS = {
     "composite": ["MCut", "MRunoff", "MElectSimul", "MEliminate", "MDefaultElect"],
     "tiered": ["MTieredElect"],
     "dictators": ["MDictatorDraw", "MDictatorExhausted", "MBoostedDraw", "MLastCandidate"],
-    "veto": ["MVetoEliminate", "MVetoElect"],
+    "veto": ["MVetoEliminate", "MVetoShort", "MVetoElect"],
 }
 
 
